@@ -710,10 +710,16 @@ fn invalid_case(rng: &mut Rng, rep: &mut Report, i: u64) {
                 return;
             }
             let (lo, hi) = (p.a.min(p.b), p.a.max(p.b));
-            let nt = -tol;
-            run_and_note(rep, &Exec { f: &p.f, a: lo, b: hi, tol: nt, solver: Solver::Bis { n_max: 10 + rng.below(90) }, expect: Expect::Err("negative-tolerance") });
-            run_and_note(rep, &Exec { f: &p.f, a: p.a, b: p.b, tol: nt, solver: Solver::Brent, expect: Expect::Err("negative-tolerance") });
-            run_and_note(rep, &Exec { f: &p.f, a: p.a, b: p.b, tol: nt, solver: Solver::Itp { k1, k2, n0 }, expect: Expect::Err("negative-tolerance") });
+            // one call in eight: a tolerance of zero (+0.0 or -0.0) - no width and no function value is below it, so
+            // it can only be answered with Err (D42: brent never returned, itp returned Ok(NaN))
+            let (nt, cls) = match (tol.to_bits() >> 8) % 16 {
+                0 => (0.0, "zero-tolerance"),
+                1 => (-0.0, "zero-tolerance"),
+                _ => (-tol, "negative-tolerance"),
+            };
+            run_and_note(rep, &Exec { f: &p.f, a: lo, b: hi, tol: nt, solver: Solver::Bis { n_max: 10 + rng.below(90) }, expect: Expect::Err(cls) });
+            run_and_note(rep, &Exec { f: &p.f, a: p.a, b: p.b, tol: nt, solver: Solver::Brent, expect: Expect::Err(cls) });
+            run_and_note(rep, &Exec { f: &p.f, a: p.a, b: p.b, tol: nt, solver: Solver::Itp { k1, k2, n0 }, expect: Expect::Err(cls) });
         }
         _ => {
             let p = gen_problem(rng);
@@ -989,6 +995,7 @@ pub fn thresholds(ctx: &Ctx, rep: &Report) -> Vec<Threshold> {
         t.push(Threshold { what: format!("{}: runs on valid brackets judged by the full oracle", s), required: q(100_000.0, 800_000.0), observed: rep.counter(&format!("{}/valid_runs", s)) as f64 });
         t.push(Threshold { what: format!("{}: same-sign brackets (Err expected)", s), required: q(6_000.0, 60_000.0), observed: rep.counter(&format!("{}/err_expected/same-sign-end-values", s)) as f64 });
         t.push(Threshold { what: format!("{}: negative tolerance (Err expected)", s), required: q(1_800.0, 18_000.0), observed: rep.counter(&format!("{}/err_expected/negative-tolerance", s)) as f64 });
+        t.push(Threshold { what: format!("{}: zero tolerance (Err expected)", s), required: q(150.0, 1_500.0), observed: rep.counter(&format!("{}/err_expected/zero-tolerance", s)) as f64 });
     }
     for c in ["negative-k1", "k2-not-above-1", "k2-not-below-1+golden-ratio", "negative-n0"] {
         t.push(Threshold { what: format!("itp: {} (Err expected)", c), required: q(1_800.0, 18_000.0), observed: rep.counter(&format!("itp/err_expected/{}", c)) as f64 });
